@@ -172,7 +172,10 @@ fn enumerate_files(path: &PathBuf) -> Result<Vec<PathBuf>, Vec<Diagnostic>> {
         let paths: Vec<PathBuf> = paths
             .into_iter()
             .filter_map(|entry| match entry {
-                Ok(entry) => Some(entry.path()),
+                // The canonical path, as for a file that is named directly, so that one file is
+                // one source however it is reached (an entry that cannot be resolved is kept
+                // as it is and reported when it is read)
+                Ok(entry) => Some(canonicalize(entry.path()).unwrap_or(entry.path())),
                 Err(_) => None,
             })
             .collect();
